@@ -34,6 +34,8 @@ PROBES = {
     "StorageHeader::as_bytes": "probe_writers",
     "StandardHeader::as_bytes": "probe_writers",
     "ExtendedHeader::as_bytes": "probe_writers",
+    "Argument::mut_buf_with_typeinfo_name_unit": "probe_writers",
+    "Argument::mut_buf_with_typeinfo_name": "probe_writers",
 }
 
 
